@@ -19,37 +19,42 @@ import (
 
 // Deviation kinds for HTTPS devices.
 const (
-	DevHTTP500   = "http500"
-	DevHTTP403   = "http403"
-	DevMalformed = "malformed"
-	DevAPIError  = "api-error"   // PAN-OS status="error"
-	DevCommitMsg = "commit-msg"  // PAN-OS commit answers with a message
-	DevJobFail   = "job-fail"    // PAN-OS commit job result FAIL
-	DevJobPend   = "job-pend"    // PAN-OS: PEND twice, then the result
+	DevHTTP500    = "http500"
+	DevHTTP403    = "http403"
+	DevHTTP502E   = "http502-empty"  // error status with an empty body (gateway in front of the device)
+	DevHTTP400J   = "http400-json"   // error status with a JSON/XML error document
+	DevRedirClose = "redirect-close" // 307 to a location that keeps the query; that request is then closed
+	DevRedirLoop  = "redirect-loop"  // 307 to itself until the client gives up
+	DevMalformed  = "malformed"
+	DevAPIError   = "api-error"  // PAN-OS status="error"
+	DevCommitMsg  = "commit-msg" // PAN-OS commit answers with a message
+	DevJobFail    = "job-fail"   // PAN-OS commit job result FAIL
+	DevJobPend    = "job-pend"   // PAN-OS: PEND twice, then the result
 )
 
 // HTTPS is a TLS server wrapping the PAN-OS or the NSX model.
 type HTTPS struct {
-	Flavor   string // panos nsx
-	Hostname string
-	Key      string // API key / xsrf token handed out at login
-	User     string
-	Pass     string
-	Pan      *panmodel.Dev // candidate configuration
-	PanRun   *panmodel.Dev // running configuration (after commit)
-	Nsx      *nsxmodel.Dev
-	HA       string            // PAN-OS: XML of <result> for the HA query ("" = not enabled)
-	Dev      map[int]string    // point -> deviation
-	PageSize int               // NSX: results per page (cursor paging)
-	Extra    []nsxmodel.Obj    // NSX: objects without the Netspoc prefix (policies)
+	Flavor        string // panos nsx
+	Hostname      string
+	Key           string // API key / xsrf token handed out at login
+	User          string
+	Pass          string
+	Pan           *panmodel.Dev // candidate configuration
+	PanRun        *panmodel.Dev // running configuration (after commit)
+	Nsx           *nsxmodel.Dev
+	HA            string         // PAN-OS: XML of <result> for the HA query ("" = not enabled)
+	Dev           map[int]string // point -> deviation
+	PageSize      int            // NSX: results per page (cursor paging)
+	Extra         []nsxmodel.Obj // NSX: objects without the Netspoc prefix (policies)
 	ExtraGroups   []nsxmodel.Obj
 	ExtraServices []nsxmodel.Obj
 
-	mu      sync.Mutex
-	Trans   []Rec
-	point   int
-	Srv     *httptest.Server
-	Commits int
+	mu       sync.Mutex
+	Trans    []Rec
+	point    int
+	redirect string // pending redirect deviation
+	Srv      *httptest.Server
+	Commits  int
 	jobPolls int
 	jobMode  string
 	stalled  bool
@@ -76,6 +81,24 @@ func (h *HTTPS) rec(text, class, dev string, accepted bool) {
 func (h *HTTPS) serve(w http.ResponseWriter, r *http.Request) {
 	h.mu.Lock()
 	defer h.mu.Unlock()
+	if strings.HasPrefix(r.URL.Path, "/redirected") {
+		// follow-up of a redirect deviation: not a dialogue point of its own
+		if h.redirect == DevRedirLoop {
+			loc := r.URL.Path
+			if r.URL.RawQuery != "" {
+				loc += "?" + r.URL.RawQuery
+			}
+			w.Header().Set("Location", loc)
+			w.WriteHeader(307)
+			return
+		}
+		if hj, ok := w.(http.Hijacker); ok {
+			if c, _, err := hj.Hijack(); err == nil {
+				c.Close()
+			}
+		}
+		return
+	}
 	h.point++
 	dev := h.Dev[h.point]
 	body, _ := io.ReadAll(r.Body)
@@ -114,6 +137,31 @@ func (h *HTTPS) serve(w http.ResponseWriter, r *http.Request) {
 	case DevHTTP403:
 		h.rec(desc, class, dev, false)
 		http.Error(w, "forbidden", 403)
+		return
+	case DevHTTP502E:
+		h.rec(desc, class, dev, false)
+		w.Header().Set("Content-Length", "0")
+		w.WriteHeader(502)
+		return
+	case DevHTTP400J:
+		h.rec(desc, class, dev, false)
+		w.WriteHeader(400)
+		if h.Flavor == "panos" {
+			w.Write([]byte(`<response status="error" code="400"><msg>Bad request</msg></response>`))
+		} else {
+			w.Header().Set("Content-Type", "application/json")
+			w.Write([]byte(`{"httpStatus":"BAD_REQUEST","error_code":500012,"module_name":"Policy","error_message":"Invalid request"}`))
+		}
+		return
+	case DevRedirClose, DevRedirLoop:
+		h.rec(desc, class, dev, false)
+		h.redirect = dev
+		loc := "/redirected" + r.URL.Path
+		if r.URL.RawQuery != "" {
+			loc += "?" + r.URL.RawQuery
+		}
+		w.Header().Set("Location", loc)
+		w.WriteHeader(307)
 		return
 	case DevMalformed:
 		h.rec(desc, class, dev, false)
